@@ -16,6 +16,8 @@ TplC17t == (TplC17q \cup {P("ok", "", <<"none">>), P("ok", "", <<"word", "word">
            \ {P("rpc", "any", <<>>)}
 \* C17, both tiers: every gRPC status code 1..16 by number, alone and in front of / behind a signing endpoint (N <= 2)
 TplC17c == {P("rpc", ToString(c), <<>>) : c \in 1..16} \cup {P("ok", "", <<"word">>)}
+\* C17, both tiers: endpoints dead at transport level in every position, under a wide and a tight request budget
+TplC17d == {P("ok", "", <<"word">>), P("ok", "", <<"none", "spaces">>), P("rpc", "any", <<>>), P("refused", "", <<>>), P("acceptclose", "", <<>>)}
 NoBundle == {[cas |-> {}, lay |-> "none"]}
 
 \* C18: server identity x protocol range x client-certificate policy
@@ -24,6 +26,13 @@ TlsKinds == {<<"ca1", "tls13">>, <<"ca1", "tls12">>, <<"ca2", "tls13">>, <<"fore
 Policies == {"require", "request", "ignore"}
 TplC18all == {T(k[1], k[2], p, "ok", "", <<"word">>) : k \in TlsKinds, p \in Policies}
 TplC18req == {T(k[1], k[2], "request", "ok", "", <<"word">>) : k \in TlsKinds}
+\* C18, both tiers: process history (other TLS configurations in the same process) and tight request budgets
+TplC18h == {T("ca1", "tls13", "request", "ok", "", <<"word">>), T("ca2", "tls13", "request", "ok", "", <<"word">>),
+            T("foreign", "tls13", "ignore", "ok", "", <<"word">>), T("ca1", "tls12", "require", "ok", "", <<"word">>)}
+Wide == {"wide"}
+WideTight == {"wide", "tight"}
+NoHist == {"none"}
+AllHists == {"none", "before", "between", "signer", "rotate"}
 TlsBundles == {[cas |-> {"ca1"}, lay |-> "one"], [cas |-> {"ca1", "ca2"}, lay |-> "two"],
                [cas |-> {"ca1", "ca2"}, lay |-> "concat"], [cas |-> {"ca2"}, lay |-> "one"]}
 
@@ -39,5 +48,5 @@ BoTable == [base |-> {"zero", "small", "max"}, mult |-> {"1", "1.5", "3", "1e308
 BoModel == [cfgs |-> BoCfgs, attempts |-> BoAttempts]
 ASSUME PrintT(<<"BOT", ToJson([classes |-> BoTable, model |-> BoModel])>>)
 
-EmitCase == (pc = "new") => PrintT(<<"CASE", ToJson([eps |-> eps, bundle |-> bundle])>>)
+EmitCase == (pc = "new" /\ last.op = "init") => PrintT(<<"CASE", ToJson([eps |-> eps, bundle |-> bundle, ctx |-> env.ctx, hist |-> env.hist])>>)
 =============================================================================
